@@ -18,6 +18,9 @@ echo "== build with change"; go build ./... || { echo "BUILD FAILS"; exit 1; }
 echo "== demonstration WITH the change (must fail)"; w=$(run_demo); echo "$w" | tail -4; echo "$w" | grep -q "^FAIL\|--- FAIL" || { echo "demo does not fail with the change"; exit 1; }
 git apply -R "$out/patch.diff"
 echo "== demonstration WITHOUT the change (must pass)"; wo=$(run_demo); echo "$wo" | tail -3
+# the package may hold a test of the repository that is flaky under machine load
+# (storage/snapshots TestRoundTrippingSavepoint): up to two more attempts
+for again in 1 2; do echo "$wo" | grep -q "^FAIL\|--- FAIL" && { wo=$(run_demo); echo "$wo" | tail -3; }; done
 git apply "$out/patch.diff"
 echo "$wo" | grep -q "^FAIL\|--- FAIL" && { echo "demo fails without the change too"; exit 1; }
 echo "== repository tests with the change (demo moved aside)"
